@@ -343,7 +343,12 @@ def _resolve(task, res):
           ("MinErrorFlow+eps", lambda: fp.MinErrorFlow(g(Dn), "flow", weight_type=int, few_flow_values_epsilon=0.5)),
           ("MinErrorFlow+eps/cyclic", lambda: fp.MinErrorFlow(g(Cn), "flow", weight_type=int, few_flow_values_epsilon=0.5)),
           ("MinErrorFlow+lambda", lambda: fp.MinErrorFlow(g(Dn), "flow", weight_type=float, sparsity_lambda=0.5)),
-          ("MinGenSet", lambda: fp.MinGenSet([1, 2, 4, 8], total=15, weight_type=int)), ("MinSetCover", lambda: fp.MinSetCover([1, 2, 3], [[1, 2], [2, 3], [3]]))]
+          ("MinGenSet", lambda: fp.MinGenSet([1, 2, 4, 8], total=15, weight_type=int)), ("MinSetCover", lambda: fp.MinSetCover([1, 2, 3], [[1, 2], [2, 3], [3]])),
+          # generic search over the number of paths with a stopping rule on the objective improvement (three disjoint routes 5/3/2)
+          ("NumPathsOptimization+delta_abs", lambda: fp.NumPathsOptimization(model_type=fp.kLeastAbsErrors, stop_on_delta_abs=1, min_num_paths=1, max_num_paths=4,
+                                                                           G=g([("s", "a", 5), ("a", "t", 5), ("s", "b", 3), ("b", "t", 3), ("s", "c", 2), ("c", "t", 2)]), flow_attr="flow", weight_type=int)),
+          ("NumPathsOptimization+delta_rel", lambda: fp.NumPathsOptimization(model_type=fp.kMinPathError, stop_on_delta_rel=0.1, min_num_paths=1, max_num_paths=4,
+                                                                           G=g([("s", "a", 5), ("a", "t", 4), ("s", "b", 3), ("b", "t", 3), ("s", "c", 2), ("c", "t", 1)]), flow_attr="flow", weight_type=int))]
     def view(m):
         sol = m.get_solution()
         size = len(sol.get("paths", sol.get("walks", []))) if isinstance(sol, dict) else len(sol)
@@ -359,6 +364,11 @@ def _resolve(task, res):
             m = make()
             ok1 = bool(m.solve())
             v1 = view(m) if ok1 else None
+        except Exception as e:
+            # the first call itself fails: not a statement about repeated calls (recorded, not judged here)
+            res["extra"]["first_call_raised"] = res["extra"].get("first_call_raised", []) + [f"{name}: {type(e).__name__}"]
+            continue
+        try:
             v1b = view(m) if ok1 else None
             ok2 = bool(m.solve())
             v2 = view(m) if ok2 else None
